@@ -457,6 +457,36 @@ def gen_anchor_stream(rng):
             else:
                 lines.append("%s: %s" % (key, txt))
             items.append((key, g))
+        # a map with aliases in key position (*k : v and ? *k : v), anchored scalar keys, with and without a merge key in front
+        if rng.random() < 0.6:
+            kname = rng.choice(["name", "key one", "n%d" % d])
+            lines.append("kk: &kn %s" % yaml_dq(kname))
+            items.append(("kk", GT("s", kname)))
+            base_items = []
+            if rng.random() < 0.55:
+                base_items = [("bx0", GT("i", d + 1, str(d + 1))), ("bx1", GT("s", "two"))]
+                lines.append("mb: &mb {bx0: %d, bx1: two}" % (d + 1))
+                items.append(("mb", GT("o", items=list(base_items))))
+            lines.append("m:")
+            own = []
+            if base_items:
+                lines.append("  <<: *mb")
+            v1 = GT("s", rng.choice(["v", "12", "true", ""]))
+            if rng.random() < 0.5:
+                lines.append("  *kn : %s" % yaml_dq(v1.val))
+            else:
+                lines.append("  ? *kn")
+                lines.append("  : %s" % yaml_dq(v1.val))
+            own.append((kname, v1))
+            if rng.random() < 0.7:
+                lines.append("  &kj other%d: w" % d)
+                own.append(("other%d" % d, GT("s", "w")))
+                lines.append("  y: *kj")
+                own.append(("y", GT("s", "other%d" % d)))
+            if rng.random() < 0.4:
+                lines.append("  z: *kn")
+                own.append(("z", GT("s", kname)))
+            items.append(("m", GT("o", items=list(base_items) + own)))
         docs.append(GT("o", items=items))
     return "\n".join(lines) + "\n", docs
 
@@ -475,7 +505,12 @@ def py_parse_stream(b):
         out.append(v)
 
 
-ANCHOR_FIXED = [("first: &x 1\nr1: *x\nsecond: &x two\nr2: *x\n",
+ANCHOR_FIXED = [("k: &key name\nbase: &base {x: 1}\nm:\n  <<: *base\n  *key : v\n",
+                 [GT("o", items=[("k", GT("s", "name")), ("base", GT("o", items=[("x", GT("i", 1, "1"))])),
+                                 ("m", GT("o", items=[("x", GT("i", 1, "1")), ("name", GT("s", "v"))]))])]),
+                ("n: &k name\nm:\n  ? *k\n  : v\n  &j other: w\nr: *j\n",
+                 [GT("o", items=[("n", GT("s", "name")), ("m", GT("o", items=[("name", GT("s", "v")), ("other", GT("s", "w"))])), ("r", GT("s", "other"))])]),
+("first: &x 1\nr1: *x\nsecond: &x two\nr2: *x\n",
                  [GT("o", items=[("first", GT("i", 1, "1")), ("r1", GT("i", 1, "1")), ("second", GT("s", "two")), ("r2", GT("s", "two"))])]),
                 ("a: &base {n: 1}\nb: *base\n---\na: &base {n: 2}\nb: *base\n---\nc: &base [3]\nd: *base\ne: &base four\nf: *base\n",
                  [GT("o", items=[("a", GT("o", items=[("n", GT("i", 1, "1"))])), ("b", GT("o", items=[("n", GT("i", 1, "1"))]))]),
